@@ -32,6 +32,9 @@ structure Mono (env : Env) (n : Nat) : Prop where
   inLoop : ∀ sv o body i st, Le (inLoop env n sv o body i st) (inLoop env (n + 1) sv o body i st)
   inLoopB : ∀ sv o w body i st, Le (inLoopB env n sv o w body i st) (inLoopB env (n + 1) sv o w body i st)
   inBatch : ∀ sv o bp w body els cache st, Le (inBatch env n sv o bp w body els cache st) (inBatch env (n + 1) sv o bp w body els cache st)
+  resolveNames : ∀ names bp bad st, Le (resolveNames env n names bp bad st) (resolveNames env (n + 1) names bp bad st)
+  evalSortKey : ∀ x st, Le (evalSortKey env n x st) (evalSortKey env (n + 1) x st)
+  evalReverse : ∀ x st, Le (evalReverse env n x st) (evalReverse env (n + 1) x st)
   raiseClass : ∀ cls e st, LeO (raiseClass env n cls e st) (raiseClass env (n + 1) cls e st)
   renderBlk : ∀ b st, Le (renderBlk env n b st) (renderBlk env (n + 1) b st)
   letLoop : ∀ binds body st, Le (letLoop env n binds body st) (letLoop env (n + 1) binds body st)
@@ -51,6 +54,9 @@ theorem mono_zero (env : Env) : Mono env 0 where
   inLoop := fun sv o body i st => by rw [show Render.inLoop env 0 sv o body i st = (.oom, st) by unfold Render.inLoop; rfl]; exact Or.inl rfl
   inLoopB := fun sv o w body i st => by rw [show Render.inLoopB env 0 sv o w body i st = (.oom, st) by unfold Render.inLoopB; rfl]; exact Or.inl rfl
   inBatch := fun sv o bp w body els cache st => by rw [show Render.inBatch env 0 sv o bp w body els cache st = (.oom, st) by unfold Render.inBatch; rfl]; exact Or.inl rfl
+  resolveNames := fun names bp bad st => by rw [show Render.resolveNames env 0 names bp bad st = (.oom, st) by unfold Render.resolveNames; rfl]; exact Or.inl rfl
+  evalSortKey := fun x st => by rw [show Render.evalSortKey env 0 x st = (.oom, st) by unfold Render.evalSortKey; rfl]; exact Or.inl rfl
+  evalReverse := fun x st => by rw [show Render.evalReverse env 0 x st = (.oom, st) by unfold Render.evalReverse; rfl]; exact Or.inl rfl
   raiseClass := fun cls e st => by rw [show Render.raiseClass env 0 cls e st = (none, st) by unfold Render.raiseClass; rfl]; exact Or.inl rfl
   renderBlk := fun b st => by rw [show Render.renderBlk env 0 b st = (.oom, st) by unfold Render.renderBlk; rfl]; exact Or.inl rfl
   letLoop := fun binds body st => by rw [show Render.letLoop env 0 binds body st = (.oom, st) by unfold Render.letLoop; rfl]; exact Or.inl rfl
@@ -405,6 +411,64 @@ theorem inBatch_step (env : Env) (n : Nat) (ih : Mono env n) (sv0 : SeqVars) (o 
       · oom_case h
       · rw [← h]; exact Le.refl _
 
+theorem resolveNames_step (env : Env) (n : Nat) (ih : Mono env n) (names : List (Text × Text)) (bp : BatchP) (bad : Bool) (st : St) :
+    Le (resolveNames env (n + 1) names bp bad st) (resolveNames env (n + 2) names bp bad st) := by
+  cases names with
+  | nil => unfold resolveNames; exact Le.refl _
+  | cons pn rest =>
+    obtain ⟨p, nm⟩ := pn
+    unfold resolveNames
+    dsimp only
+    rcases ih.getitem nm true st with h | h
+    · oom_case h
+    · rw [← h]
+      generalize getitem env n nm true st = x
+      obtain ⟨r, st'⟩ := x
+      cases r with
+      | ok v =>
+        dsimp only
+        cases paramInt v with
+        | ok i => exact ih.resolveNames _ _ _ _
+        | bad => exact ih.resolveNames _ _ _ _
+        | valueError =>
+          dsimp only
+          split
+          · exact ih.resolveNames _ _ _ _
+          · exact Le.refl _
+      | raise e =>
+        dsimp only
+        split
+        · exact ih.resolveNames _ _ _ _
+        · exact Le.refl _
+      | ret v =>
+        dsimp only
+        split
+        · exact ih.resolveNames _ _ _ _
+        · exact Le.refl _
+      | oom => exact Le.refl _
+
+theorem evalSortKey_step (env : Env) (n : Nat) (ih : Mono env n) (x : InXOpts) (st : St) :
+    Le (evalSortKey env (n + 1) x st) (evalSortKey env (n + 2) x st) := by
+  unfold evalSortKey
+  cases x.sortExpr with
+  | none => exact Le.refl _
+  | some e =>
+    dsimp only
+    rcases ih.evalExpr e st with h | h
+    · oom_case h
+    · rw [← h]; exact Le.refl _
+
+theorem evalReverse_step (env : Env) (n : Nat) (ih : Mono env n) (x : InXOpts) (st : St) :
+    Le (evalReverse env (n + 1) x st) (evalReverse env (n + 2) x st) := by
+  unfold evalReverse
+  cases x.reverseExpr with
+  | none => exact Le.refl _
+  | some e =>
+    dsimp only
+    rcases ih.evalExpr e st with h | h
+    · oom_case h
+    · rw [← h]; exact Le.refl _
+
 theorem raiseClass_step (env : Env) (n : Nat) (ih : Mono env n) (cls : Text) (e : Option Expr) (st : St) :
     LeO (raiseClass env (n + 1) cls e st) (raiseClass env (n + 2) cls e st) := by
   simp only [raiseClass]
@@ -629,33 +693,69 @@ theorem renderBlk_step (env : Env) (n : Nat) (ih : Mono env n) (b : Blk) (st : S
           · exact oneRes_le (ih.renderJoined _ _)
           · exact Le.refl _
         · rename_i xs _ _
-          generalize arrange env o x xs st' = ra
-          obtain ⟨r1, st1⟩ := ra
-          cases r1 with
-          | oom => exact Le.refl _
-          | ret v => exact Le.refl _
-          | raise e => exact Le.refl _
-          | ok ys =>
-            simp only
-            cases x.batch with
-            | none =>
+          rcases ih.evalSortKey x st' with hk | hk
+          · oom_case hk
+          · rw [← hk]
+            generalize evalSortKey env n x st' = rk
+            obtain ⟨k1, sA⟩ := rk
+            cases k1 with
+            | oom => exact Le.refl _
+            | ret v => exact Le.refl _
+            | raise e => exact Le.refl _
+            | ok key =>
               simp only
-              rcases ih.inLoop { items := ys, mapping := o.mapping, prefix_ := o.prefix_ } o body 0 _ with h2 | h2
-              · oom_case h2
-              · rw [← h2]; exact Le.refl _
-            | some bp =>
-              simp only
-              rcases ih.getitem (txt "QUERY_STRING") true st1 with hq | hq
-              · oom_case hq
-              · rw [← hq]
-                generalize getitem env n (txt "QUERY_STRING") true st1 = rq
-                obtain ⟨q, st2⟩ := rq
-                cases q with
-                | oom => exact Le.refl _
-                | ok _ => exact oneRes_le (ih.inBatch _ _ _ _ _ _ _ _)
-                | raise _ => exact oneRes_le (ih.inBatch _ _ _ _ _ _ _ _)
-                | ret _ => exact oneRes_le (ih.inBatch _ _ _ _ _ _ _ _)
-
+              generalize sortPart env o { x with sortKey := key } xs sA = rs
+              obtain ⟨s1, sB⟩ := rs
+              cases s1 with
+              | oom => exact Le.refl _
+              | ret v => exact Le.refl _
+              | raise e => exact Le.refl _
+              | ok sorted =>
+                simp only
+                rcases ih.evalReverse x sB with hr | hr
+                · oom_case hr
+                · rw [← hr]
+                  generalize evalReverse env n x sB = rr
+                  obtain ⟨r1, st1⟩ := rr
+                  cases r1 with
+                  | oom => exact Le.refl _
+                  | ret v => exact Le.refl _
+                  | raise e => exact Le.refl _
+                  | ok rev =>
+                    simp only
+                    generalize applyReverse rev sorted = ys
+                    cases x.batch with
+                    | none =>
+                      simp only
+                      rcases ih.inLoop { items := ys, mapping := o.mapping, prefix_ := o.prefix_ } o body 0 _ with h2 | h2
+                      · oom_case h2
+                      · rw [← h2]; exact Le.refl _
+                    | some bp0 =>
+                      simp only
+                      rcases ih.resolveNames x.names bp0 false st1 with hp | hp
+                      · oom_case hp
+                      · rw [← hp]
+                        generalize resolveNames env n x.names bp0 false st1 = rp
+                        obtain ⟨p1, sP⟩ := rp
+                        cases p1 with
+                        | oom => exact Le.refl _
+                        | ret v => exact Le.refl _
+                        | raise e => exact Le.refl _
+                        | ok pb =>
+                          obtain ⟨bp, bad⟩ := pb
+                          simp only
+                          split
+                          · exact Le.refl _
+                          · rcases ih.getitem (txt "QUERY_STRING") true sP with hq | hq
+                            · oom_case hq
+                            · rw [← hq]
+                              generalize getitem env n (txt "QUERY_STRING") true sP = rq
+                              obtain ⟨q, st2⟩ := rq
+                              cases q with
+                              | oom => exact Le.refl _
+                              | ok _ => exact oneRes_le (ih.inBatch _ _ _ _ _ _ _ _)
+                              | raise _ => exact oneRes_le (ih.inBatch _ _ _ _ _ _ _ _)
+                              | ret _ => exact oneRes_le (ih.inBatch _ _ _ _ _ _ _ _)
 
 /-- **Fuel monotonicity**: for every function of the interpreter and every fuel, one more unit of
 fuel gives the same outcome unless the evaluation had run out of fuel -/
@@ -679,6 +779,9 @@ theorem mono_all (env : Env) : ∀ n, Mono env n := by
       inLoop := inLoop_step env n ih
       inLoopB := inLoopB_step env n ih
       inBatch := inBatch_step env n ih
+      resolveNames := resolveNames_step env n ih
+      evalSortKey := evalSortKey_step env n ih
+      evalReverse := evalReverse_step env n ih
       raiseClass := raiseClass_step env n ih
       renderBlk := renderBlk_step env n ih
       letLoop := letLoop_step env n ih }
